@@ -106,6 +106,9 @@ func (e *Env) resolveType(s string) types.Type {
 		if p, ok := e.x.w.ByPath[pname]; ok {
 			cand = p.Types
 		}
+		if cand == nil && pkg != nil && pkg.Name() == pname {
+			cand = pkg
+		}
 		if cand == nil && pkg != nil {
 			for _, imp := range pkg.Imports() {
 				if imp.Name() == pname || imp.Path() == pname {
@@ -571,6 +574,15 @@ func (x *Exec) evalCall(env *Env, e *ECall) (Value, types.Type) {
 			panic("contract: addrof: no package-level variable " + name)
 		}
 		return &PtrV{Kind: PRef, Ref: x.globalRef(g), Elem: g.Type().(*types.Pointer).Elem(), Global: g}, g.Type()
+	case "was": // was(g, x): the ghost g of the node x denotes NOW, looked up in the old() state
+		gname := e.Args[0].(*EIdent).Name
+		g := x.sp.Ghosts[gname]
+		if g == nil || env.old == nil {
+			panic("contract: was(ghost, x) needs a ghost name and a postcondition context")
+		}
+		v, _ := x.eval(env, e.Args[1])
+		h := env.old.getHeap("G|"+g.Name, arrSort(SInt, x.ghostSort(g)))
+		return mkSelect(h, x.valRef(env.st, v)), boolT
 	case "errmsg":
 		v, _ := x.eval(env, e.Args[0])
 		return ufApp(&UF{"err_Error", []Sort{SInt}, SStr}, v.(*Term)), types.Typ[types.String]
